@@ -32,6 +32,8 @@ func main() {
 		runRegList()
 	case "copies":
 		runCopies()
+	case "ble":
+		runBle()
 	default:
 		fmt.Fprintf(os.Stderr, "unknown subcommand %q\n", os.Args[1])
 		os.Exit(2)
